@@ -23,6 +23,50 @@ CHECKS = {
          "The reference is built by the harness's own inlining of (?&name) into non-capturing groups with the subpattern's own Unicode flag; T-munch decides equality with the graph the real derive built, for all inputs.",
          "as C01", "5 C11"),
 }
+CHECKS.update({
+ "C03": ("model_checking", "TLC on LexSpec.tla (Progress, Ordered, Gaps, EndsAtLen, Variant, <>done under WF) + replay + LexTrace trace validation",
+         "The reference lexer is a TLA+ state machine (one step per next() call); TLC checks tiling, strict progress and termination (liveness under weak fairness) for every input up to a length bound over every corpus definition, and every behaviour is replayed on the compiled lexers, which must return exactly those items and then None on every further call; recorded hook traces of random inputs are validated against LexTrace.tla; definitions with a nullable pattern must be rejected.",
+         "input length bounded at sequence level (per-attempt claims are unbounded, C01); corpus-bounded definitions", "3.3, 5 C03"),
+ "C04": ("model_checking", "TLC on LexSpec.tla (Boundaries), Attempt.tla (T-utf8), RefUtf8.tla (acceptance) + replay with slice()/remainder() checks + LexTrace endb conjunct",
+         "UTF-8 validity is part of the product state (Attempt) and of the explicit inputs (LexSpec, multi-byte characters in every alphabet); the driver compares slice() and remainder() with source[span] after every call in default and forbid_unsafe builds; RefUtf8.tla decides per pattern whether it can match invalid UTF-8 and the derive must have rejected such str-mode definitions.",
+         "as C01/C03", "3.4 T-utf8, 5 C04"),
+ "C05": ("model_checking", "LexTrace.tla Read/End/EndB conjuncts on hooked reads of exactly-sized heap inputs; SourceRead.tla + replay of Source::read; build equality",
+         "Every read the generated code issues goes through LexerInternal::read (hooked): the trace spec requires Some exactly when offset+size <= len, for inputs of every length around the 8-byte batch allocated exactly; SourceRead.tla checks the checked_add-shaped bounds rule against unbounded arithmetic for a small word and every case is replayed on the public Source::read of str, [u8] and Deref wrappers (offsets near usize::MAX included); default, forbid_unsafe, debug and release builds must produce identical traces.",
+         "an access that bypasses LexerInternal::read / Lexer::span (e.g. a changed Chunk::from_ptr reading more than SIZE) is invisible to a TLA+ trace check; stated as assumption, a sanitizer would be needed", "5 C05"),
+ "C06": ("model_checking", "same TLC-generated behaviours and validated traces on tail-call and state-machine builds + stack probe on long inputs",
+         "Every behaviour replayed for C01-C03/C07 and every validated trace is produced by both code generators and must be identical event by event; stack use of the state-machine lexer is measured at the runtime hook for inputs of 10^3..10^6 bytes (one long token, 10^5 consecutive skips, late accepts) and must not depend on the length.",
+         "stack use measured at hook events only", "5 C06"),
+ "C12": ("model_checking", "TLC on Modes.tla (SameInBothModes) over twin definitions + replay of both variants + RefUtf8.tla",
+         "Every str-acceptable corpus definition is captured twice (str, utf8=false); TLC checks on the reference lexer that both yield the same Ok items and error bytes for every enumerated valid UTF-8 input; both real lexers are replayed against LexSpec and compared with each other.",
+         "as C03", "5 C12"),
+ "C13": ("model_checking", "TLC on Callbacks.tla (Decide table, SkipTransparent) + replay of items and callback invocation logs",
+         "The documented callback table is a TLA+ operator (Decide); subject callbacks implement the same pure decisions; expected items (with payloads and error values) and the list of callback invocations with spans are replayed on four builds.",
+         "callback decisions depend on the match length only; 8 hand-written definitions", "5 C13"),
+ "C14": ("model_checking", "TLC on LexerAPI.tla (all reachable states of two lexer slots) + replay of one history per state x operation",
+         "TLC explores every reachable state of the API state machine (next, bump, clone, morph, spanned over two slots and two token types) and the harness replays a history reaching each state followed by each enabled operation against the real API, comparing results, spans, extras and slice()/remainder() equations.",
+         "three hand-written pairs of definitions; inputs up to 3-4 characters", "3.6, 5 C14"),
+ "C15": ("model_checking", "TLC on LexerAPI.tla (SpanInv; Bump with every n incl. overflow) + replay on debug/release x default/forbid_unsafe",
+         "Bump is an action for every n up to len+2 and for usize::MAX-1, usize::MAX; SpanInv is a TLC invariant; the real bump is called inside catch_unwind in debug and release builds and the lexer must be unchanged after a panic and usable afterwards.",
+         "two huge values stand for all overflowing n", "3.6, 5 C15"),
+ "C09": ("exploration", "TLC enumeration of regex ASTs with Complexity (Regex.tla, LiteralNotBeaten checked) replayed against captured leaf priorities",
+         "The documented rule is a TLA+ function over an AST grammar; TLC enumerates all ASTs to depth 2 and checks the 'therefore' clause on each; the real derive's priority for each rendered pattern must equal it.",
+         "AST depth 2 over a 3-character alphabet", "3.2, 5 C09"),
+ "C16": ("exploration", "GenTrace.tla validation of output digests recorded from threads x processes x both generators",
+         "generate() and strip_attributes() are run for every corpus definition on several threads of several processes (fresh hash seeds) with both code generators; the digest trace is accepted by GenTrace.tla only if every key has one value.",
+         "hash seeds are sampled, not enumerated", "5 C16"),
+ "C17": ("exploration", "TLC enumeration of enum sources and of write/check/tamper histories (Cli.tla) replayed on the real logos-cli binary",
+         "Cli.tla specifies what must remain of the derive lists and how the output file evolves; every enumerated source and history is executed with the real binary and compared (stdout parsed with syn; impl part equal to generate()).",
+         "fixed enum body; --format not exercised", "3.9, 5 C17"),
+ "C18": ("exploration", "TLC enumeration of argument / item permutations (Attr.tla, tokenizer model refines grammar) replayed on the real derive",
+         "Every permutation of every subset of named arguments and of #[logos(...)] items is run through the real derive and must give the same verdict, leaves, priorities and graph as the canonical order; TLC also checks the model of the attribute tokenizer against the abstract grammar.",
+         "fixed argument values", "3.8, 5 C18"),
+ "C19": ("exploration", "TLC enumeration of enum inputs with verdicts (Derive.tla) replayed through generate() under catch_unwind and through rustc",
+         "Derive.tla assigns Accept/Reject to a product grammar of variant shapes, attribute forms and enum-level forms (18 200 inputs); the real derive must never panic and must agree with the verdict, as a library and as a real proc macro on stable rustc.",
+         "bounded grammar of inputs", "3.8, 5 C19"),
+ "C20": ("model_checking", "LexTrace.tla Read conjuncts (monotone offsets, 4x+8 bound) on recorded traces incl. long adversarial inputs",
+         "Every hooked read of every traced run must not move backwards within an attempt and the number of reads is bounded linearly in the bytes examined; nested-repetition definitions are run on inputs of 10^4..10^5 bytes.",
+         "traces are sampled inputs; the bound constant 4x+8 is the specification's", "5 C20"),
+})
 NOT_YET = {}
 
 def main():
@@ -59,6 +103,11 @@ def main():
         "engines": [
             {"name": "attempt", "path": "spec/Attempt.tla", "serves_properties": ["C01", "C02", "C07", "C10", "C11"], "kind_free_text": ENGINE_A},
             {"name": "amb", "path": "spec/Amb.tla", "serves_properties": ["C08"], "kind_free_text": "TLC exploration of the reference product, tie sets vs captured graph errors"},
+            {"name": "lexspec", "path": "spec/LexSpec.tla", "serves_properties": ["C03", "C04", "C05", "C06", "C07", "C12", "C20"], "kind_free_text": "reference lexer on explicit inputs (sequence level, liveness, chunked protocol) + replay; Modes.tla, RefUtf8.tla"},
+            {"name": "lextrace", "path": "spec/LexTrace.tla", "serves_properties": ["C03", "C04", "C05", "C06", "C20"], "kind_free_text": "trace validation of recorded hook events (code -> spec)"},
+            {"name": "api", "path": "spec/LexerAPI.tla", "serves_properties": ["C14", "C15"], "kind_free_text": "API state machine over lexer objects + history replay"},
+            {"name": "callbacks", "path": "spec/Callbacks.tla", "serves_properties": ["C13"], "kind_free_text": "callback decision table + replay"},
+            {"name": "front", "path": "spec/Derive.tla", "serves_properties": ["C09", "C16", "C17", "C18", "C19"], "kind_free_text": "TLC-enumerated programs (Derive, Attr, Regex, Cli, GenTrace) replayed on the real derive / rustc / logos-cli"},
         ],
         "checks": checks,
         "not_applicable": na,
